@@ -110,11 +110,9 @@ func allocsOfParseResults(fn *ssa.Function) (head, body *ssa.Alloc) {
 
 func (c *Ctx) c15Chunk(stage *ssa.Function) {
 	R := c.R
-	hAl, bAl := allocsOfParseResults(stage)
-	if hAl == nil || bAl == nil {
-		R.Fatal("%s: the variables receiving the header parser's results were not found (anchor)", shortFn(stage))
-		return
-	}
+	// the header parser's two results are observed where the parser returns (ghosts headLen / bodyLen), whatever
+	// variables the caller keeps them in
+	nParse := 0
 	// the local variable holding the file's record (result of the lookup in Record)
 	var packAl *ssa.Alloc
 	for _, b := range stage.Blocks {
@@ -150,6 +148,27 @@ func (c *Ctx) c15Chunk(stage *ssa.Function) {
 		gEnd, gSeen := a.NewGhost("chunkEnd"), a.NewGhost("chunkSeen")
 		gLen := a.NewGhost("chunkLen")
 		gRec := a.NewGhost("recLen")
+		gHead, gBody := a.NewGhost("headLen"), a.NewGhost("bodyLen")
+		absint.SetGhost(st, gHead, absint.Const(-1))
+		absint.SetGhost(st, gBody, absint.Const(-1))
+		a.OnInlined = func(f *ssa.Function, fargs []absint.Term, val absint.Term, st *absint.State) {
+			if f.Name() != "Parse" || f.Signature.Recv() == nil || f.Signature.Results().Len() != 2 || len(fargs) != 2 {
+				return
+			}
+			// the chunk header parser: called on the pending buffer, returns two ints
+			tu, isT := val.(*absint.Tuple)
+			if !isT || len(tu.Elems) != 2 {
+				return
+			}
+			h0, ok0 := tu.Elems[0].(absint.Int)
+			b0, ok1 := tu.Elems[1].(absint.Int)
+			if !ok0 || !ok1 {
+				return
+			}
+			nParse++
+			absint.SetGhost(st, gHead, h0.L)
+			absint.SetGhost(st, gBody, b0.L)
+		}
 		absint.SetGhost(st, gRec, absint.Const(-1))
 		absint.SetGhost(st, gEnd, absint.Const(0))
 		absint.SetGhost(st, gSeen, absint.Const(0))
@@ -160,14 +179,6 @@ func (c *Ctx) c15Chunk(stage *ssa.Function) {
 			hs, _ := h.(*absint.Slice)
 			return hs
 		}
-		cell := func(st *absint.State, al *ssa.Alloc) (absint.Lin, bool) {
-			p, ok := a.Val(st, al).(*absint.Ptr)
-			if !ok {
-				return absint.Lin{}, false
-			}
-			v, ok := a.LoadDeref(st, p, al.Type().Underlying().(*types.Pointer).Elem()).(absint.Int)
-			return v.L, ok
-		}
 		a.OnMapUpdate = func(f2 *ssa.Function, ins *ssa.MapUpdate, st *absint.State, m, k, v absint.Term) {
 			if f2 != stage {
 				return
@@ -177,8 +188,9 @@ func (c *Ctx) c15Chunk(stage *ssa.Function) {
 			case "OffsetDataRecord":
 				vs, _ := v.(*absint.Slice)
 				h := hist(st)
-				hl, ok1 := cell(st, hAl)
-				bl, ok2 := cell(st, bAl)
+				hl, bl := gh(st, gHead), gh(st, gBody)
+				ok1 := st.Entails(absint.Con{L: hl, Rel: absint.GE}) || !st.Feasible(absint.Con{L: hl.AddC(1), Rel: absint.EQ})
+				ok2 := ok1
 				ok := vs != nil && h != nil && ok1 && ok2 && vs.Base == h.Base &&
 					st.Entails(eqC(vs.Off, h.Off.Add(hl))) && st.Entails(eqC(vs.Len, bl)) && st.Entails(leC(hl.Add(bl), h.Len))
 				d := ""
@@ -269,7 +281,20 @@ func (c *Ctx) c15Chunk(stage *ssa.Function) {
 		}
 	})
 	c.AddE1(res, false)
+	if nParse == 0 {
+		R.Fatal("%s: no return of a chunk header parser (Parse(buffer) (int, int)) was observed (anchor)", shortFn(stage))
+	}
 	c.chunkStageRule("S.reply", stage, res[0])
+	// the prescribed reply to a 0x1212: the ranges of the file it names, freshly computed (shared with C16)
+	if sweep, evt := c.P.Method("attachment", "Package", "StatisticalMissSegments"), c.P.Method("attachment", "standardJT808DataHandle", "OnPackageProgressEvent"); sweep != nil && evt != nil {
+		R.Rules["E3.wiring"] = "the reply to a completion message is computed for the file that message names, and the computed ranges are stored into the handler on every path that computed them (no stale list from an earlier completion); the stage becomes Supplementary exactly when ranges are missing"
+		lr := layoutResult{}
+		c.completionWiring(lr, sweep, evt)
+		lr.flush(c, c.P.RelPos(evt.Pos()))
+		R.Require("E3.wiring", 3, "")
+	} else {
+		R.Fatal("anchors Package.StatisticalMissSegments / standardJT808DataHandle.OnPackageProgressEvent not found")
+	}
 	// idempotence of the accounting: the record of an offset is overwritten only after its old length was looked up under the
 	// same key and taken back
 	for _, b := range stage.Blocks {
@@ -792,26 +817,54 @@ func (c *Ctx) c15Replies(run *ssa.Function) {
 	} else {
 		R.Fatal("anchor PackageProgress.hasJT808Reply not found")
 	}
-	// (2) the write in the read loop: data of ReplyData, under hasJT808Reply, one write
-	var body *ssa.Function // the range-over-func body
-	var writes []*ssa.Call
-	for _, fn := range append([]*ssa.Function{run}, run.AnonFuncs...) {
+	// (2) the write in the read loop: data of ReplyData, under hasJT808Reply, one write. The write may sit in the
+	//     loop body itself or in a helper of the package that the loop body calls (the call then stands for the write).
+	type wsite struct {
+		fn   *ssa.Function   // function containing the socket write
+		call *ssa.Call       // the Write
+		at   ssa.Instruction // the instruction in the loop body that stands for it (the write itself or the helper call)
+		in   *ssa.Function   // loop-body function containing `at`
+	}
+	var sites []wsite
+	loopFns := append([]*ssa.Function{run}, run.AnonFuncs...)
+	writesOf := func(fn *ssa.Function) []*ssa.Call {
+		var out []*ssa.Call
 		for _, b := range fn.Blocks {
 			for _, ins := range b.Instrs {
 				if call, ok := ins.(*ssa.Call); ok {
 					if n, _ := callMethodName(call); n == "Write" && call.Call.IsInvoke() {
-						writes = append(writes, call)
-						body = fn
+						out = append(out, call)
 					}
 				}
 			}
 		}
+		return out
 	}
-	ok, d := len(writes) == 1, fmt.Sprintf("%d socket writes in the connection loop (expected one)", len(writes))
+	for _, fn := range loopFns {
+		for _, w := range writesOf(fn) {
+			sites = append(sites, wsite{fn, w, w, fn})
+		}
+		for _, b := range fn.Blocks {
+			for _, ins := range b.Instrs {
+				call, isC := ins.(*ssa.Call)
+				if !isC {
+					continue
+				}
+				sc := call.Call.StaticCallee()
+				if sc == nil || !c.P.IsRepoFunc(sc) || pkgOf(sc) != pkgOf(run) || sc == run {
+					continue
+				}
+				for _, w := range writesOf(sc) {
+					sites = append(sites, wsite{sc, w, call, fn})
+				}
+			}
+		}
+	}
+	ok, d := len(sites) == 1, fmt.Sprintf("%d socket writes in the connection loop (expected one)", len(sites))
 	if ok {
-		w := writes[0]
+		w := sites[0]
 		ok, d = false, "the bytes written are not the result of ReplyData()"
-		arg := w.Call.Args[0]
+		arg := w.call.Call.Args[0]
 		if ex, isEx := arg.(*ssa.Extract); isEx && ex.Index == 0 {
 			if n, _ := callMethodName(ex.Tuple); n == "ReplyData" {
 				ok, d = true, ""
@@ -819,9 +872,9 @@ func (c *Ctx) c15Replies(run *ssa.Function) {
 		}
 		if ok {
 			guard := false
-			for _, b := range body.Blocks {
+			for _, b := range w.in.Blocks {
 				if iff, isIf := b.Instrs[len(b.Instrs)-1].(*ssa.If); isIf {
-					if n, _ := callMethodName(iff.Cond); n == "hasJT808Reply" && b.Succs[0].Dominates(w.Block()) {
+					if n, _ := callMethodName(iff.Cond); n == "hasJT808Reply" && b.Succs[0].Dominates(w.at.Block()) && len(b.Succs[0].Preds) == 1 {
 						guard = true
 					}
 				}
